@@ -308,6 +308,22 @@ def run(ck, F, E):
         has = [c for c in ml.calls() if sfx(c.callee, "Arrays::has")]
         ck.require(bool(has) and bool(ml.calls_to("Interpreter::warn")), "C17:WARN:array-condition", "warning condition",
                    "array warning is conditioned on !arrays.has(name)", "the array warning lost its !arrays.has() test", ml.span)
+        # ... exactly: every path that warns has seen has() == false, and a path that has seen has() == false (with warnings
+        # wanted, where the function tests that itself) warns -- `enable_warnings || !has` warns about arrays that exist
+        from lib import path_records
+        wrong = []
+        for r in path_records(ml):
+            warned = any(sfx(c.callee, "Interpreter::warn") for c in r["calls"])
+            hv = [d[2] for d in r["decisions"] if any(x[1].endswith("Arrays::has") for x in expr_calls(d[3]))]
+            ev = [d[2] for d in r["decisions"] if "enable_warnings" in d[0]]
+            if warned and False not in hv:
+                wrong.append("a path warns without having seen arrays.has() == false")
+            if not warned and hv == [False] and all(v is True for v in ev):
+                wrong.append("a path that has seen arrays.has() == false does not warn")
+        ck.require(not wrong, "C17:WARN:array-condition-exact", "warning condition",
+                   "warn() is reached exactly on the paths where arrays.has(name) was false",
+                   "maybe_log_warning_about_undeclared_array_use: %s -- the warning is no longer issued exactly when a statement "
+                   "touches an array that does not exist yet" % "; ".join(sorted(set(wrong))), ml.span)
     cands = [b for b, c in callers_of(F, "Variables::has") if b.crate == "abasic_core" and "expression::ExpressionEvaluator" in b.path]
     et = cands[0] if len({b.path for b in cands}) == 1 else get_fn(ck, F, "ExpressionEvaluator::evaluate_expression_term")
     if et is not None:
